@@ -115,6 +115,13 @@ def c32(c):
     if bad:
         c.log('failing signatures: ' + ' '.join(sorted({o['sig'] for o in bad})))
 
+    # ---- 3b. stalled writes: the bytes handed to ResponseWriter.Write stay this connection's message while
+    #          another connection of the same transport is served (in process, own ResponseWriter, GOMAXPROCS(1))
+    sres = c.harness(binp, 'stall', {'rounds': 20 if quick else 200}, timeout=600)
+    c.absorb(sres)
+    c.log('stall probe: %d rounds (hs-pb, hs-json, sse): a Write parked before consuming its argument while the other '
+          'connection receives a message of the same length; %d violations' % (sres['executed'], len(sres.get('violations') or [])))
+
     # ---- 4. the recorded response bodies, parsed by the SPEC's parsers (trace validation, code -> spec)
     wires = rres['extra']['wires'] or []
     by_id = {o['id']: o for o in outcomes}
@@ -155,8 +162,8 @@ def c32(c):
     c.log('wire validation by TLC: %d bodies, %d verdicts agree with the harness; framing variants seen: %s'
           % (len(wires), agree, json.dumps(variants, sort_keys=True)))
 
-    c.cov['traces_validated_against_impl'] = rres['completed'] + len(verdicts)
-    c.cov['evaluations'] = tres['executed'] + rres['executed']
+    c.cov['traces_validated_against_impl'] = rres['completed'] + len(verdicts) + sres['completed']
+    c.cov['evaluations'] = tres['executed'] + rres['executed'] + sres['executed']
     c.cov['distinct_nontrivial'] = rres['nontrivial']
     c.cov['exhaustive'] = True
     c.cov['framing_variants'] = variants
